@@ -69,10 +69,11 @@ ASSUMPTIONS = ['molecule adjacency is symmetric (Graph invariant; the driver ans
                'held to formula / skeleton preservation and to all other clauses',
                'molecules whose non-aromatic atoms already carry an undefined hydrogen count are outside the domain']
 HAS_DRIVER = True
-EXTRA_MODULES = ['Spec.Kekule', 'Model.C05Kekule', 'Model.C05Rules', 'Model.C05Thiele', 'Gen.AromaticRules']
+EXTRA_MODULES = ['Spec.Kekule', 'Model.C05Kekule', 'Model.C05Rules', 'Model.C05Thiele', 'Model.C05Search', 'Gen.AromaticRules']
 PROGRAMS = ['kekule / thiele against the pinned aromatic reference (corpus/C05_aromatic_reference.json)', 'Thiele.thiele ring eligibility (monocyclic templates)', 'MoleculeContainer.kekule', 'MoleculeContainer.enumerate_kekule', 'MoleculeContainer.thiele',
             'MoleculeContainer.thiele(fix_tautomers=False)', 'Kekule.__prepare_rings', 'Kekule.__fix_rings',
-            'MoleculeContainer.calc_implicit (through kekule)', 'aromatics._rules.rules']
+            'MoleculeContainer.calc_implicit (through kekule)', 'aromatics._rules.rules',
+            'aromatics.kekule._kekule_component']
 ENUM_CAP = 48
 KNOWN_TAUTOMER_SIG = 'C05/thiele-numbering-dependent/tautomer-fix-acceptor-choice'
 KNOWN_SSSR_SIG = 'C05/thiele-numbering-dependent/sssr-choice-in-cages'
@@ -186,6 +187,220 @@ def maps_ints(logs):
             for q, n in mp:
                 out += [q, n]
     return out
+
+
+# ------------------------------------------------------------------------------------------------
+# `_kekule_component`: recorder for the calls the real conversions make + direct runs of the real generator
+# ------------------------------------------------------------------------------------------------
+
+KS_YIELDS = 12        # yields compared per recorded call (the generator is lazy; `kekule()` itself takes one)
+
+
+class _FirstSet(set):
+    """a set whose iteration starts with a chosen element: `_kekule_component` observes of `double_bonded` only membership,
+    emptiness and `next(iter(double_bonded))`; any first element is a possible CPython iteration order"""
+
+    def __init__(self, order):
+        super().__init__(order)
+        self._order = list(order)
+
+    def __iter__(self):
+        return iter(self._order)
+
+
+def ks_key(rings, dbl, pyr, buf):
+    return (tuple((n, tuple(ms)) for n, ms in rings), tuple(dbl), tuple(sorted(pyr)), buf)
+
+
+def install_recorder():
+    """wrap the module-level `_kekule_component` so that every call made by kekule() / enumerate_kekule() during the run is
+    recorded with its inputs exactly as passed (component dict order, neighbour order, first element of the set)"""
+    import chython.algorithms.aromatics.kekule as kmod
+    if getattr(kmod._kekule_component, '_c05_orig', None) is not None:
+        return kmod._kekule_component._c05_orig
+    orig = kmod._kekule_component
+    calls = _state.setdefault('ks_calls', {})
+
+    def recording(rings, double_bonded, pyrroles, buffer_size):
+        try:
+            dbl = list(double_bonded)          # iteration order of the very object the search will use
+            key = ks_key([(n, list(ms)) for n, ms in rings.items()], dbl, pyrroles, buffer_size)
+            if key not in calls and len(calls) < 200000:
+                calls[key] = _state.get('cur')
+        except Exception:  # noqa
+            pass
+        return orig(rings, double_bonded, pyrroles, buffer_size)
+    recording._c05_orig = orig
+    kmod._kekule_component = recording
+    return orig
+
+
+def remove_recorder():
+    import chython.algorithms.aromatics.kekule as kmod
+    orig = getattr(kmod._kekule_component, '_c05_orig', None)
+    if orig is not None:
+        kmod._kekule_component = orig
+
+
+def real_component():
+    import chython.algorithms.aromatics.kekule as kmod
+    return getattr(kmod._kekule_component, '_c05_orig', None) or kmod._kekule_component
+
+
+def fmt_path(p):
+    return ' '.join(f'{n},{m},{b}' for n, m, b in p)
+
+
+def impl_ks(key, ycap):
+    """run the real generator on the recorded inputs; returns (status, [paths]) with at most ycap + 1 paths"""
+    from chython.exceptions import InvalidAromaticRing
+    rings, dbl, pyr, buf = key
+    gen = real_component()({n: list(ms) for n, ms in rings}, _FirstSet(dbl), set(pyr), buf)
+    ys, status = [], 'done'
+    try:
+        for path in gen:
+            ys.append([tuple(x) for x in path])
+            if len(ys) > ycap:
+                status = 'more'
+                break
+    except InvalidAromaticRing:
+        status = 'raise'
+    except Exception as e:  # noqa
+        status = 'crash:' + type(e).__name__
+    return status, ys
+
+
+def ks_line(key, ycap):
+    rings, dbl, pyr, buf = key
+    ints = [buf, ycap + buf + 3, len(rings)]
+    for n, ms in rings:
+        ints += [n, len(ms)] + list(ms)
+    ints += [len(dbl)] + list(dbl) + [len(pyr)] + list(pyr)
+    return 'ks ' + ' '.join(str(x) for x in ints)
+
+
+def ks_agree(got, status, ys, ycap):
+    """model answer vs the real generator: identical yield sequence (verbatim: order of paths, order and direction of the
+    entries) and identical end (exhausted / InvalidAromaticRing / exception type); when the real generator was stopped after
+    ycap + 1 yields the model must show the same ycap + 1 first"""
+    head, _, body = got.partition(' | ')
+    mys = [x.strip() for x in body.split(' ; ')] if body.strip() else []
+    exp = [fmt_path(p) for p in ys]
+    if status == 'more':
+        return mys[:ycap + 1] == exp[:ycap + 1] and len(mys) >= ycap + 1
+    return head.strip() == status and mys == exp
+
+
+def brute_matchings(rings, db, pyr, cap=20000):
+    """independent of both the code and the model: every set of double bonds on the component such that an atom of
+    `double_bonded` has none, an atom of `pyrroles` at most one, every other atom exactly one"""
+    adj = {n: list(dict.fromkeys(ms)) for n, ms in rings}
+    order = list(adj)
+    idx = {n: i for i, n in enumerate(order)}
+    db, pyr = set(db), set(pyr)
+    out = []
+
+    def rec(i, matched, chosen):
+        if len(out) >= cap:
+            return
+        if i == len(order):
+            out.append(frozenset(chosen))
+            return
+        n = order[i]
+        if n in db or n in matched:
+            rec(i + 1, matched, chosen)
+            return
+        if n in pyr:
+            rec(i + 1, matched, chosen)
+        for m in adj[n]:
+            if m in idx and idx[m] > i and m not in matched and m not in db:
+                rec(i + 1, matched | {n, m}, chosen + [frozenset((n, m))])
+    rec(0, frozenset(), [])
+    return set(out)
+
+
+def path_assignment(rings, path):
+    """(is every skeleton bond assigned exactly once, set of double bonds)"""
+    edges = {frozenset((n, m)) for n, ms in rings for m in ms}
+    got = [frozenset((n, m)) for n, m, _ in path]
+    ok = len(got) == len(set(got)) and set(got) == edges and all(b in (1, 2) for _, _, b in path)
+    return ok, frozenset(frozenset((n, m)) for n, m, b in path if b == 2)
+
+
+def small_components(n):
+    """every connected simple graph on the atoms 1..n whose degrees are all 2 or 3 (what `__prepare_rings` lets through),
+    as a component dict in key order 1..n with ascending neighbour lists"""
+    pairs = list(itertools.combinations(range(1, n + 1), 2))
+    for mask in range(1 << len(pairs)):
+        es = [pairs[i] for i in range(len(pairs)) if mask >> i & 1]
+        if not n <= len(es) <= 3 * n // 2:
+            continue
+        adj = {i: [] for i in range(1, n + 1)}
+        for a, b in es:
+            adj[a].append(b)
+            adj[b].append(a)
+        if any(len(v) not in (2, 3) for v in adj.values()):
+            continue
+        seen, todo = {1}, [1]
+        while todo:
+            for y in adj[todo.pop()]:
+                if y not in seen:
+                    seen.add(y)
+                    todo.append(y)
+        if len(seen) == n:
+            yield [(i, adj[i]) for i in range(1, n + 1)]
+
+
+def shuffled_component(rng, rings):
+    """the same graph with other atom numbers, another dict insertion order (a BFS order from a random atom, as
+    `__kekule_full` builds it) and shuffled neighbour lists"""
+    ids = [n for n, _ in rings]
+    new = rng.sample(range(1, 3 * len(ids) + 2), len(ids))
+    mp = dict(zip(ids, new))
+    adj = {mp[n]: [mp[m] for m in ms] for n, ms in rings}
+    for v in adj.values():
+        rng.shuffle(v)
+    start = rng.choice(list(adj))
+    order, queue = [start], [start]
+    while queue:
+        cur = queue.pop(0)
+        for m in adj[cur]:
+            if m not in order:
+                order.append(m)
+                queue.append(m)
+    return [(n, adj[n]) for n in order]
+
+
+def random_component(rng, wild):
+    """ring-system-like graphs: a cycle plus chords / fused cycles; `wild` also allows degree 1 and 4 and a missing key"""
+    n = rng.randint(3, 12)
+    adj = {i: set() for i in range(1, n + 1)}
+    for i in range(1, n + 1):
+        j = i % n + 1
+        adj[i].add(j)
+        adj[j].add(i)
+    for _ in range(rng.randint(0, n // 2)):
+        a, b = rng.sample(range(1, n + 1), 2)
+        if b in adj[a]:
+            continue
+        if not wild and (len(adj[a]) >= 3 or len(adj[b]) >= 3):
+            continue
+        adj[a].add(b)
+        adj[b].add(a)
+    if wild and rng.random() < 0.4:
+        t = n + 1                                   # pendant atom
+        a = rng.randint(1, n)
+        adj[t] = {a}
+        adj[a].add(t)
+    return [(i, sorted(adj[i])) for i in adj]
+
+
+def labelled(rng, rings, p_db=0.2, p_pyr=0.2):
+    ids = [n for n, _ in rings]
+    db = [n for n in ids if rng.random() < p_db]
+    pyr = [n for n in ids if rng.random() < p_pyr]
+    rng.shuffle(db)
+    return db, pyr
 
 
 def wire_core(resp):
@@ -1040,6 +1255,7 @@ def mol_cases(tag, mol, batch, rel, rng, renum=True, dist=None, known=None, extr
         if dist is not None:
             dist(key, n)
     ints0 = wire.mol_to_ints(mol)
+    _state['cur'] = ints0
     if not domain_ok(mol):
         d('skipped:undefined-H-outside-rings')
         return False
@@ -1492,6 +1708,131 @@ def run_batch(ctx, batch):
 
 
 def correspond(ctx):
+    _state['ks_calls'] = {}
+    _state['cur'] = None
+    install_recorder()
+    try:
+        correspond_conversions(ctx)
+        _state['cur'] = None
+        ks_stream(ctx)
+    finally:
+        remove_recorder()
+    if ctx.broken and ctx.failures:
+        # core only starts the search when no failure has been recorded yet; the known finding recorded above must not
+        # keep the search from looking at the other disagreements
+        search(ctx)
+
+
+def ks_domain(rings):
+    """what `__prepare_rings` guarantees of a component: symmetric simple graph, closed, every degree 2 or 3"""
+    adj = dict(rings)
+    return (len(adj) == len(rings) and all(len(ms) in (2, 3) and len(set(ms)) == len(ms) for ms in adj.values())
+            and all(m in adj and m != n and n in adj[m] for n, ms in adj.items() for m in ms))
+
+
+def ks_check(ctx, batch_keys, ycap, origin):
+    """one batch: real generator vs `kekuleComponent` (verbatim), and the yielded assignments vs an independent brute force"""
+    if not batch_keys:
+        return
+    exp = [impl_ks(k, ycap) for k in batch_keys]
+    got = core.run_driver('C05', [ks_line(k, ycap) for k in batch_keys]) if ctx.build_ok else None
+    if got is not None and len(got) != len(batch_keys):
+        ctx.broke('correspondence', 'driver-protocol', f'ks: {len(got)} answers for {len(batch_keys)} requests')
+        got = None
+    for i, (k, (status, ys)) in enumerate(zip(batch_keys, exp)):
+        rings, dbl, pyr, buf = k
+        dom = ks_domain(rings)
+        ctx.count(('ks', k), nontrivial=True)
+        ctx.dist(f'ks:{origin}:' + status.replace('crash:', 'crash-'))
+        cur = _state['ks_calls'].get(k) if origin == 'recorded' else None
+        if got is not None and not ks_agree(got[i], status, ys, ycap):
+            ctx.cov['disagreements_checked'] += 1
+            ctx.broke('correspondence', 'kekule-component-search',
+                      f'{origin}: rings={list(rings)} double_bonded={list(dbl)} pyrroles={list(pyr)} buffer_size={buf}: impl {status} '
+                      f'{[fmt_path(p) for p in ys][:3]} model {got[i][:300]!r}'[:1500])
+            if cur is not None:
+                _state.setdefault('bad', []).append(('kekule-component-search', cur))
+        if status.startswith('crash') and dom:
+            ctx.cov['disagreements_checked'] += 1
+            ctx.broke('relational', 'search-crashes-on-prepared-component', f'{origin}: {k}: {status}'[:800])
+            if cur is not None:
+                _state.setdefault('bad', []).append(('search-crash', cur))
+        if not dom or status.startswith('crash'):
+            continue
+        # SearchSound / SearchNoDup / SearchComplete (Props/C05.lean state them; here they are evaluated on the real output)
+        size = sum(len(ms) for _, ms in rings) // 2
+        if size > 40:
+            continue
+        bm = brute_matchings(rings, dbl, pyr, cap=3000)
+        capped = len(bm) >= 3000
+        forms, bad = [], None
+        for pth in ys:
+            ok, dd = path_assignment(rings, pth)
+            if not ok:
+                bad = 'a skeleton bond is assigned twice or not at all: ' + fmt_path(pth)
+            elif not capped and dd not in bm:
+                bad = 'not a matching that covers the acceptors and avoids double_bonded: ' + fmt_path(pth)
+            forms.append(dd)
+        if bad is None and len(set(forms)) != len(forms):
+            bad = 'the same Kekulé form is yielded twice'
+        plain_start = bool(dbl) or any(len(ms) == 2 and n not in pyr for n, ms in rings)
+        if bad is None and not capped and status in ('done', 'raise') and plain_start and set(forms) != bm:
+            bad = f'{len(bm)} matchings exist, {len(set(forms))} yielded ({status})'
+        if bad is None and not capped and status == 'raise' and not bm:
+            ctx.dist('ks:no-kekule-form-exists(raise agreed by brute force)')
+        if bad is not None:
+            ctx.cov['disagreements_checked'] += 1
+            ctx.broke('relational', 'search-output-not-a-perfect-matching',
+                      f'{origin}: rings={list(rings)} double_bonded={list(dbl)} pyrroles={list(pyr)} buffer_size={buf}: {bad}'[:1500])
+            if cur is not None:
+                _state.setdefault('bad', []).append(('search-unsound', cur))
+
+
+def ks_stream(ctx):
+    """K: `_kekule_component` against Model/C05Search.lean — (1) every distinct call the conversions of this run made,
+    (2) all small components with all labelings, (3) random ring-system-like components incl. ill-formed ones"""
+    rng = ctx.rng
+    t0 = time.time()
+    calls = list(_state.get('ks_calls', {}))
+    n_calls = len(calls)
+    cap = 7000 if ctx.quick else 120000
+    if len(calls) > cap:
+        calls = rng.sample(calls, cap)
+    for i in range(0, len(calls), 4000):
+        ks_check(ctx, calls[i:i + 4000], KS_YIELDS, 'recorded')
+    t1 = time.time()
+    keys = []
+    n_ex = 4 if ctx.quick else 5
+    for n in range(3, n_ex + 1):
+        for rings in small_components(n):
+            ids = [a for a, _ in rings]
+            for lab in itertools.product(range(4), repeat=n):
+                db = [a for a, l in zip(ids, lab) if l in (1, 3)]
+                pyr = [a for a, l in zip(ids, lab) if l in (2, 3)]
+                for first in (db[:1] + db[-1:] if len(db) > 1 else db[:1] or [None]):
+                    dbo = db if first is None or first == db[0] else [first] + [x for x in db if x != first]
+                    for buf in (0, 7):
+                        keys.append(ks_key(rings, dbo, pyr, buf))
+    n_exh = len(keys)
+    bigger = list(small_components(n_ex + 1))
+    for _ in range(5000 if ctx.quick else 60000):
+        r = shuffled_component(rng, rng.choice(bigger))
+        db, pyr = labelled(rng, r, rng.choice([0, .15, .3]), rng.choice([0, .15, .3, .6]))
+        keys.append(ks_key(r, db, pyr, rng.choice([0, 1, 2, 7])))
+    for i in range(2500 if ctx.quick else 40000):
+        r = shuffled_component(rng, random_component(rng, i % 3 == 0))
+        db, pyr = labelled(rng, r, rng.choice([0, .1, .3]), rng.choice([0, .1, .3]))
+        keys.append(ks_key(r, db, pyr, rng.choice([0, 1, 2, 7])))
+    keys = list(dict.fromkeys(keys))
+    for i in range(0, len(keys), 8000):
+        ks_check(ctx, keys[i:i + 8000], KS_YIELDS, 'generated')
+    ctx.notes.append(f'_kekule_component: {n_calls} distinct calls recorded from the conversions of this run ({len(calls)} compared, '
+                     f'{t1 - t0:.1f}s); every component with <= {n_ex} atoms of degree 2-3 x every double_bonded/pyrroles labeling x '
+                     f'buffer_size 0/7 = {n_exh} cases enumerated completely; {len(keys) - n_exh} sampled larger / ill-formed '
+                     f'components ({time.time() - t1:.1f}s)')
+
+
+def correspond_conversions(ctx):
     ctx.cov['programs'] = len(PROGRAMS)
     rng = ctx.rng
     _state['bad'] = []
@@ -1676,10 +2017,6 @@ def correspond(ctx):
             run_batch(ctx, batch)
             batch = Batch()
     run_batch(ctx, batch)
-    if ctx.broken and ctx.failures:
-        # core only starts the search when no failure has been recorded yet; the known finding recorded above must not
-        # keep the search from looking at the other disagreements
-        search(ctx)
 
 
 # ------------------------------------------------------------------------------------------------
